@@ -11,6 +11,7 @@ import copy
 import json
 import warnings
 
+import itertools
 import math
 
 import numpy as np
@@ -124,7 +125,11 @@ def make_krige(cfg, ref):
 
 
 def make_csrf(cfg, ref):
-    return gs.CondSRF(make_krige(cfg, ref), seed=SEEDS[ref["seed"]], mode_no=MODE_NO)
+    kr = make_krige(cfg, ref)
+    csrf = gs.CondSRF(kr, seed=SEEDS[ref["seed"]], mode_no=MODE_NO)
+    # the caller keeps its own handles on the kriging instance and (through it) on the model
+    csrf.__dict__["_user_krige"] = kr
+    return csrf
 
 
 def tpos_value(cfg, ref):
@@ -137,7 +142,11 @@ def tpos_value(cfg, ref):
 def apply_op(csrf, ref, op, cfg, env):
     """returns the generated field (or None)"""
     k = op["k"]
-    kr = csrf.krige
+    # conditions and in-place model changes go through the conditioned-field object or through the handles the
+    # caller created before building it (the same objects, by the documented construction)
+    user = cfg.get("handles") == "user"
+    kr = csrf.__dict__["_user_krige"] if user else csrf.krige
+    mdl = kr.model if user else csrf.model
     if k == "call":
         kw = {}
         if op.get("seed"):
@@ -178,11 +187,11 @@ def apply_op(csrf, ref, op, cfg, env):
             return "SKIP"
         ref["geom"] = op["v"]
         g = GEOMS[op["v"]]
-        csrf.model.anis = g[0][: cfg["dim"] - 1]
-        csrf.model.angles = g[1][: cfg["dim"] * (cfg["dim"] - 1) // 2]
+        mdl.anis = g[0][: cfg["dim"] - 1]
+        mdl.angles = g[1][: cfg["dim"] * (cfg["dim"] - 1) // 2]
         kr.set_condition()  # the documented refresh
     elif k == "model_attr":
-        setattr(csrf.model, op["attr"], getattr(csrf.model, op["attr"]) * op["f"])
+        setattr(mdl, op["attr"], getattr(mdl, op["attr"]) * op["f"])
         ref[op["attr"]] = ref[op["attr"]] * op["f"]
         kr.set_condition()  # the documented refresh
     elif k == "model_assign":
@@ -345,6 +354,11 @@ def configs(tier):
         {"variant": "Simple", "cls": "Exponential", "dim": 1, "nugget": 0.0, "warm": [{"k": "call", "pos": "A", "seed": "s1"}]},
         {"variant": "Ordinary", "cls": "Gaussian", "dim": 2, "nugget": 0.0, "warm": [{"k": "call", "pos": "B", "seed": "s2"}]},
     ]
+    # conditions / model changed through the handles the caller created before building the conditioned field
+    c += [
+        {"variant": "Ordinary", "cls": "Exponential", "dim": 2, "nugget": 0.0, "handles": "user"},
+        {"variant": "Simple", "cls": "Gaussian", "dim": 1, "nugget": 0.0, "handles": "user", "warm": [{"k": "call", "pos": "A", "seed": "s1"}]},
+    ]
     if tier != "quick":
         c += [
             {"variant": "Simple", "cls": "Spherical", "dim": 2, "nugget": 0.0},
@@ -353,6 +367,40 @@ def configs(tier):
             {"variant": "Detrended", "cls": "Exponential", "dim": 2, "nugget": 0.2},
         ]
     return c
+
+
+EXTF = {"f1": (lambda x: 0.3 + 0.2 * x), "f2": (lambda x: 1.0 - 0.1 * x * x)}
+
+
+def _ext_csrf(cfg):
+    ref = init_ref(dict(cfg, variant="Ordinary"))
+    m = make_model(ref)
+    cp, cv = cond_of(dict(cfg, variant="Ordinary"), ref)
+    kr = gs.krige.ExtDrift(m, cp, cv, EXTF["f1"](cp[0]))
+    return gs.CondSRF(kr, seed=SEEDS["s1"], mode_no=MODE_NO), cp, cv
+
+
+def case_extdrift(case):
+    """conditioned fields on external-drift kriging: the drift at the target points is part of the request;
+    every call of every history equals a freshly built object called with the same request"""
+    r = R()
+    cfg, hist = case["cfg"], case["hist"]
+    csrf, cp, cv = _ext_csrf(cfg)
+    extra = {"cls": cfg["cls"], "dim": cfg["dim"]}
+    for i, op in enumerate(hist):
+        pos = target(cfg, op["pos"])
+        ext = EXTF[op["ext"]](pos[0])
+        kw = {"seed": SEEDS[op["seed"]]} if op["seed"] else {}
+        out = np.array(csrf(pos, ext_drift=ext, **kw), dtype=float)
+        if i == len(hist) - 1:
+            seeds = [o["seed"] for o in hist if o["seed"]]
+            fresh, _, _ = _ext_csrf(cfg)
+            fo = np.array(fresh(pos, ext_drift=ext, seed=SEEDS[seeds[-1] if seeds else "s1"]), dtype=float)
+            r.close("conditioned field (external drift) == freshly built object called with the same positions, drift and seed", out, fo, rtol=1e-8, atol=1e-8, last=op, **extra)
+            r.close("stored raw_krige == freshly built object", np.array(csrf["raw_krige"]), np.array(fresh["raw_krige"]), rtol=1e-8, atol=1e-8, last=op, **extra)
+            at = np.array(csrf(cp, ext_drift=EXTF["f1"](cp[0]), **kw), dtype=float)
+            r.close("field at the conditioning locations (drift as at the conditions) == conditioning values", at, cv, rtol=1e-6, atol=1e-5, last=op, **extra)
+    return r.done(outcome=[round(float(v), 8) for v in out[:2]])
 
 
 def case_formula(case):
@@ -397,7 +445,7 @@ def case_formula(case):
     return r.done(outcome=[round(float(x), 9) for x in out[:3]])
 
 
-GROUPS = {"condsrf_bfs": case_hist, "formula": case_formula}
+GROUPS = {"extdrift": case_extdrift, "condsrf_bfs": case_hist, "formula": case_formula}
 
 
 def run(chk):
@@ -408,7 +456,7 @@ def run(chk):
         configs(chk.tier),
         lambda cfg: ops_for(cfg, chk.tier),
         depth if chk.tier == "quick" else 4,
-        rule="BFS over histories of call(posA|posB|close-to-A|grid|kept|caller-mutated array; seed s1|s2|kept; custom store names) / set_pos / set_condition(new values | new positions+values) / in-place model change + documented refresh / model, mean, trend, normalizer re-assignment + refresh / direct krige call, on CondSRF over Simple, Ordinary, Universal and Detrended kriging",
+        rule="BFS over histories of call(posA|posB|close-to-A|grid|kept|caller-mutated array; seed s1|s2|kept; custom store names) / set_pos / set_condition(new values | new positions+values) / in-place model change + documented refresh / model, mean, trend, normalizer re-assignment + refresh / direct krige call, on CondSRF over Simple, Ordinary, Universal and Detrended kriging; conditions and in-place model changes applied through the conditioned-field object or through the caller's own handles on the kriging instance and model",
     )
     fc = []
     for variant in ["Simple", "Ordinary", "Universal", "Detrended"]:
@@ -419,5 +467,15 @@ def run(chk):
                         for ls in (2.0, 0.8):
                             fc.append({"cfg": {"variant": variant, "cls": cls, "dim": dim, "nugget": nug}, "seed": seed, "len_scale": ls})
     chk.run("formula", case_formula, fc, rule="variant x model x dim x nugget (0, 0.2, 0.7 with exact=True) x seed x length scale on freshly built objects: conditioning formula including the nugget part, data at the conditioning points, far field under simple kriging")
+    eops = [{"pos": p, "ext": e, "seed": sd} for p in ("A", "B") for e in ("f1", "f2") for sd in ("s1", "s2", None)]
+    ehist = [list(h) for L in (1, 2, 3 if chk.tier != "quick" else 2) for h in itertools.product(eops, repeat=L)]
+    seen, eh = set(), []
+    for h in ehist:
+        k_ = json.dumps(h)
+        if k_ not in seen:
+            seen.add(k_)
+            eh.append(h)
+    ecases = [{"cfg": {"variant": "ExtDrift", "cls": c, "dim": d, "nugget": 0.0}, "hist": h} for (c, d) in (("Exponential", 1), ("Gaussian", 2)) for h in eh]
+    chk.run("extdrift", case_extdrift, ecases, rule="CondSRF on external-drift kriging x every history of length <= 2 (thorough 3) of calls over positions {A, B} x drift at the targets {f1, f2} x seed {s1, s2, kept}: field and stored raw kriging field equal a freshly built object called with the last request; data honoured when the drift of the conditions is passed", chunk=16)
     chk.assume("zero measurement error configurations only (nugget 0, or nugget 0.2 with exact=True); with a nugget the full field is not compared with the fresh object (noise stream position is C11's subject), only the cached kriging parts, the raw field, and the data at the conditioning points")
     chk.assume("kriging correctness itself is decided by C05/C06; here a freshly built object is the reference")
